@@ -43,7 +43,7 @@ func (s LogInitStruct) Actions(ctx context.Context, state *types.State) types.Ac
 			algo,
 			make([]byte, h.Size()),
 			tpmeventlog.EV_NO_ACTION,
-			[]byte(fmt.Sprintf("StartupLocality\x00%c", s.Locality)),
+			append([]byte("StartupLocality\x00"), s.Locality),
 		))
 	}
 	return result
